@@ -179,6 +179,7 @@ func (r *runner) outcome(k okey) {
 }
 
 type runner struct {
+	dbNo  int // databases built so far (rotates the position of the injected flush failure)
 	okeys map[okey]struct{}
 	w     *world
 	rep   *vevid.Report
@@ -687,6 +688,16 @@ func (r *runner) runBatch(insts []*inst) {
 		r.writePhase(e, I, 2)
 	}
 	round("r3", notAllBefore) // immutable + new series in memory
+	// a flush that fails at its k-th table file (k rotates over the databases of the run) and is repeated: whatever was
+	// being flushed stays selectable in between and afterwards
+	r.dbNo++
+	if inj, err := e.flushFailing((r.f.Shard*5+r.dbNo)%9 + 1); inj {
+		if err == nil {
+			r.rep.Count("failed_flush_reported_success", 1)
+		}
+		r.rep.Count("flushes_failed_by_injection", 1)
+		round("failed-flush", all)
+	}
 	e.flush()
 	round("r4", all) // flushed (+ new series in memory)
 	e.flush()
